@@ -458,6 +458,36 @@ def n_edges(mp):
     return sum(max(0, len(r) - 1) for poly in mp for r in poly)
 
 
+def g10_pair(rng):
+    """wedge family: small exact shapes sandwiched between two long edges P (below) and Q (above) of two
+    big triangles; P and Q cross to the right of everything else, so they become neighbours in the sweep
+    line only when the last small segment is removed (the check-on-removal path of the sweep)"""
+    if rng.random() < 0.5:
+        xs = sorted(rng.sample(range(0, 9), 3 + rng.randint(0, 2)))
+        ys = sorted(rng.sample(range(0, 9), 3 + rng.randint(0, 2)))
+        a = g1_operand(rng, xs, ys)
+        b = g1_operand(rng, xs, ys) if rng.random() < 0.7 else g1_operand(rng, sorted(rng.sample(range(0, 9), 3)), ys)
+    else:
+        n = rng.choice([2, 3, 4])
+        a = rings_to_mpoly(trace_faces(g2_faces(rng, n, 0, 0, 2, rng.choice([0.4, 0.6, 0.8]))))
+        b = rings_to_mpoly(trace_faces(g2_faces(rng, n, 0, 0, 2, rng.choice([0.4, 0.6, 0.8]))))
+    # the two triangles meet only at the crossing of P and Q, (22, 5), and where Q ends on the vertical
+    # edge of the lower triangle, (28, 2): all intersection points are integers
+    lower = [[(-4, -8), (28, 8), (28, -24), (-4, -8)]]
+    # Q starts at x = 2, above whatever small edges the sweep line holds there, so that P and Q have
+    # not been neighbours before the small shapes end; they cross at (22, 5)
+    upper = [[(2, 15), (28, 2), (40, 30), (2, 15)]]
+    # the two big triangles cross each other, so they go to different operands
+    if rng.random() < 0.5:
+        a, b = a + [lower], b + [upper]
+    else:
+        a, b = a + [upper], b + [lower]
+    if rng.random() < 0.5:
+        f = lambda p: (p[0], 8 - p[1])
+        a, b = map_mpoly(a, f), map_mpoly(b, f)
+    return a, b
+
+
 FAMILIES = {
     "g1": g1_pair,
     "g2": g2_pair,
@@ -465,6 +495,7 @@ FAMILIES = {
     "g4": g4_pair,
     "g5": g5_pair,
     "g9": g9_evenodd_pair,
+    "g10": g10_pair,
 }
 # families on which all arithmetic is exact by construction / usually exact / never exact
-EXACT_FAMILIES = {"g1"}
+EXACT_FAMILIES = {"g1", "g10"}
